@@ -365,6 +365,17 @@ func (c *ctx) file(p *packages.Package, f *ast.File) []edit {
 			id := len(c.seams.TickSites)
 			c.seams.TickSites = append(c.seams.TickSites, c.pos(t.Pos()))
 			s.afterBrace(t.Body.Lbrace, fmt.Sprintf(" %s.Tick(%d);", simrtName, id))
+		case *ast.LabeledStmt:
+			// a label can be the target of a backward goto, i.e. a loop without a for statement
+			if _, isLoop := t.Stmt.(*ast.ForStmt); !isLoop {
+				if _, isRange := t.Stmt.(*ast.RangeStmt); !isRange {
+					if _, isBlock := t.Stmt.(*ast.BlockStmt); !isBlock {
+						id := len(c.seams.TickSites)
+						c.seams.TickSites = append(c.seams.TickSites, c.pos(t.Pos()))
+						s.add(edit{off: c.off(t.Colon) + 1, class: 1, text: fmt.Sprintf(" %s.Tick(%d);", simrtName, id)})
+					}
+				}
+			}
 		case *ast.RangeStmt:
 			id := len(c.seams.TickSites)
 			c.seams.TickSites = append(c.seams.TickSites, c.pos(t.Pos()))
